@@ -36,4 +36,12 @@ class Ref(Expression):
         out += (STATUS, RESULT, POS) << Yield((CALL, func, POS))
 
     def argumentize(self, out, flags):
-        return Code(self.resolved)
+        # A rule is looked up through the context, like in "_compile". (It may
+        # be inherited from a parent grammar, or overridden by a child.)
+        is_rule = self._resolved is not None and not self.is_local
+        is_super = self.resolved.startswith('_super_ctx.')
+
+        if flags.uses_context and is_rule and not is_super:
+            return Code(f'_ctx.{self.resolved}')
+        else:
+            return Code(self.resolved)
